@@ -16,7 +16,7 @@ RULE += ('; also: observers that raise from every notification (unprintable exce
 ASSUMPTIONS = ['expected outcome is computed from the program text and the request log, not read back from the process',
                'hooks do not raise (C03 owns that)']
 REQUIRED = ['detaching_listener_runs', 'suite_audits', 'terminated', 'final/finished', 'final/excepted', 'final/killed', 'kill_while_paused', 'kill_in_step', 'kill_from_listener',
-            'unsuccessful_by_outputs', 'raising_listener_runs', 'listener_twice_runs', 'cancellederror_listener_runs']
+            'unsuccessful_by_outputs', 'raising_listener_runs', 'listener_twice_runs', 'cancellederror_listener_runs', 'failing_cleanup_runs']
 ALPHABET = [['pause', 'p'], ['play'], ['kill', 'k'], ['resume', ['v']], ['fail', 'falsy-f'], ['soon_raise', 'c']]  # (fail: with an exception instance that is falsy)
 BOUNDS = {'quick': 'basic program family (+required-output variants), K<=2 exhaustive', 'thorough': 'K=3 exhaustive on 4 key programs, + 40 random programs, K=3 sampled'}
 
@@ -65,6 +65,10 @@ def _gen_cases(tier, seed):
         for j, plan in enumerate([[]] + list(plans.all_placements(n, [['pause', 'p'], ['kill', 'k'], ['fail', 'f']], 1))):
             yield {'name': name, 'program': prog, 'plan': plans.uniq(plan, 'b%d' % j), 'drain': True, 'probe': False,
                    'barrage': False, 'listener': 'raising-base', 'req_output': req}
+        # cleanups that fail (with an Exception, and with asyncio's CancelledError): tolerated one by one, the others run
+        for j, plan in enumerate([[]] + list(plans.all_placements(n, [['pause', 'p'], ['kill', 'k'], ['fail', 'f']], 1))):
+            yield {'name': name, 'program': prog, 'plan': plans.uniq(plan, 'fc%d' % j), 'drain': True, 'probe': False,
+                   'barrage': False, 'listener': True, 'req_output': req, 'failing_cleanups': 'base' if j % 2 else True}
         # a process recreated from a checkpoint whose future is cancelled (must end KILLED with every view agreeing, like a fresh one)
         for s0 in range(0, n + 1):
             for plan in ([{'at': s0, 'act': ['cancel_future']}], [{'at': s0, 'act': ['pause', 'p']}, {'at': 'q', 'act': ['cancel_future']}]):
@@ -112,7 +116,7 @@ def run_case(case):
     viol = judges.judge_c02(rec)
     fin = rec['final']
     obs = {'terminated': int(bool(fin and fin['terminated'])), 'final': {}, 'kill_while_paused': 0, 'kill_in_step': 0, 'kill_from_listener': 0,
-           'unsuccessful_by_outputs': 0, 'views_compared': 0, 'raising_listener_runs': int(case.get('listener') == 'raising'), 'cancellederror_listener_runs': int(case.get('listener') == 'raising-base'), 'detaching_listener_runs': int(case.get('listener') == 'detaching'), 'listener_twice_runs': int(case.get('listener') == 'twice')}
+           'unsuccessful_by_outputs': 0, 'views_compared': 0, 'raising_listener_runs': int(case.get('listener') == 'raising'), 'cancellederror_listener_runs': int(case.get('listener') == 'raising-base'), 'failing_cleanup_runs': int(bool(case.get('failing_cleanups'))), 'detaching_listener_runs': int(case.get('listener') == 'detaching'), 'listener_twice_runs': int(case.get('listener') == 'twice')}
     if fin:
         obs['final'][fin['state']] = 1
         if fin['terminated']:
